@@ -15,6 +15,7 @@ import sys
 sys.path.insert(0, os.path.dirname(os.path.abspath(__file__)))
 import anyio  # noqa: E402
 from asphalt.core import (  # noqa: E402
+    start_service_task,
     Component,
     ComponentStartError,
     Context,
@@ -24,7 +25,7 @@ from asphalt.core import (  # noqa: E402
     get_resource,
     start_component,
 )
-from director import Director, backend_options, jump, settle  # noqa: E402
+from director import Director, backend_options, jump, run_guarded, settle  # noqa: E402
 
 TYPES = [type(f"R{i}", (), {}) for i in range(4)]
 NAMES = ["default"] + [f"n{i}" for i in range(1, 20)]
@@ -37,6 +38,14 @@ class Pub:
 
     def j(self):
         return [self.by, self.seq, self.factory]
+
+    def __len__(self):
+        # every other published object is an empty container: a resource is a resource whatever its truth value
+        return self.seq % 2
+
+
+class Never:
+    """a resource type nobody ever publishes"""
 
 
 class Boom(Exception):
@@ -64,9 +73,36 @@ def make_classes(prog, d, state):
 
             async def run_script(phase, script):
                 for si, sg in enumerate(script):
-                    await d.gate(i, on_cancel=lambda: d.obs("Cancelled", i))
+                    if state["r"].random() < 0.2:
+                        # the component spends the time until its gate opens inside start_service_task(), waiting
+                        # for a service that takes its time to report started(): it must stay cancellable there
+                        async def service(*, task_status):
+                            await d.gate(i, on_cancel=lambda: d.obs("Cancelled", i))
+                            task_status.started()
+                            await anyio.sleep_forever()
+                        await start_service_task(service, f"svc{i}_{int(phase)}_{si}")
+                    else:
+                        await d.gate(i, on_cancel=lambda: d.obs("Cancelled", i))
                     for a in sg:
                         await do(a, phase)
+
+            async def wait_beside_another(ty, name):
+                """the same wait, with a second request pending in the same component (for something nobody
+                publishes) that begins after this one: each request is released by its own publication only"""
+                box = []
+                async with anyio.create_task_group() as tg:
+                    async def real():
+                        box.append(await get_resource(ty, name))
+                        tg.cancel_scope.cancel()
+
+                    async def other():
+                        await get_resource(Never, "never")
+                    tg.start_soon(real)
+                    for _ in range(3):
+                        await anyio.sleep(0)
+                    if not box:
+                        tg.start_soon(other)
+                return box[0]
 
             async def do(a, phase):
                 k = a[0]
@@ -93,7 +129,10 @@ def make_classes(prog, d, state):
                             add_resource(v, NAMES[name], ts)
                 elif k == "Wait":
                     try:
-                        v = await get_resource(TYPES[a[1]], NAMES[a[2]])
+                        if state["r"].random() < 0.3:
+                            v = await wait_beside_another(TYPES[a[1]], NAMES[a[2]])
+                        else:
+                            v = await get_resource(TYPES[a[1]], NAMES[a[2]])
                     except anyio.get_cancelled_exc_class():
                         d.obs("Cancelled", i)
                         raise
@@ -230,7 +269,11 @@ def main():
         try:
             async def runner():
                 return await run_case(case)
-            res.append(anyio.run(runner, backend=case["backend"], backend_options=backend_options(case["backend"])))
+            how, r = run_guarded(runner, case["backend"])
+            if how == "hang":
+                r = {"backend": case["backend"], "prog": case["prog"], "choices": case["choices"],
+                     "timeout": case["timeout"], "hang": True}
+            res.append(r)
         except BaseException:  # noqa
             import traceback
             res.append({"backend": case["backend"], "prog": case["prog"], "crash": traceback.format_exc()[-2500:]})
